@@ -248,11 +248,11 @@ Lemma stream_agree : forall fuel k g tls reg,
 Proof.
   intros fuel k g tls reg W N. unfold y_items_from_stream, r_parse_nexus_stream. cbn [r_k r_g r_tls r_tlreg].
   rewrite ybind_ylift.
-  destruct (zstep k next_token) as [k1|e|] eqn:E1; cbn [bind]; try (simpl; reflexivity).
+  destruct (zstep k require_next_token) as [k1|e|] eqn:E1; cbn [bind]; try (simpl; reflexivity).
   destruct (z_cur (k_z k1)) as [t|]; [|simpl; reflexivity].
   destruct (negb (str_eqb (upper t) K_NEXUS)); [simpl; reflexivity|].
   apply blocks_loop_agree; [assumption|].
-  apply zstep_suf in E1; [|apply next_token_suf]. eapply NoSets_suf; eassumption.
+  apply zstep_suf in E1; [|apply require_next_token_suf]. eapply NoSets_suf; eassumption.
 Qed.
 
 End Blocks.
